@@ -10,7 +10,7 @@ META = {
     'technique': 'static provenance of the timer duration and who-may-construct/who-may-complete rules over MIR',
     'text': 'Decides the structure that makes client deadlines right: the timer is armed at transmission with the call\'s own deadline minus a fresh now (so queueing time counts; optional '
             'constant upper bound), keyed by the request id, and its key is remembered by the entry; DeadlineExceeded is constructed at exactly one place, the closure handed to the expiry '
-            'poll, and is delivered only to the entry whose timer fired (Some edge of poll_expired); every completing or cancelling removal also removes the timer (C11), so a processed reply wins.',
+            'poll, and is delivered only to the entry whose timer fired (Some edge of poll_expired); every completing or cancelling removal also removes the timer, and a timer is removed only together with its entry (C05.timers: no left-over timer fires on a later request reusing the id, no live request loses its timer through a key kept aside), so a processed reply wins and an unanswered call still fails at its deadline.',
     'note': 'Trusted: tokio-util DelayQueue fires no earlier than the armed duration (ms granularity). Not decided: timing itself. Deadlines beyond the one-year clamp of fix D2 fire at the clamp.',
 }
 
